@@ -10,3 +10,4 @@ pub mod menc;
 pub mod c13;
 pub mod c12;
 pub mod c11;
+pub mod c09;
